@@ -742,6 +742,81 @@ fn emit_lifted(cx: &mut Ctx, specs: &mut Specs, em: &mut Emitter, gens: &[&syn::
     em.comment(&format!("// @lifted {} `{}` from {}:{} captures [{}]{}", kind, lc.name, file, lc.line, lc.captures.join(", "), if lc.is_move { " (move)" } else { " (by reference)" }));
     // ---- constructor
     let ctor = format!("{}__new", lc.name);
+    // L1r: the contract names a capture the closure literal no longer has (a capture was removed or replaced): the constructor is
+    // emitted from the actual captures (so that the ownership obligations of the enclosing function decide), the clauses about the
+    // missing capture are left out, and the closure's own body obligations are undecided (soft lost anchor)
+    {
+        let capn: BTreeSet<String> = lc.captures.iter().map(|c| if c == "self" { "this".to_string() } else { c.replace("self.", "self_") }).collect();
+        let mut inputs = BTreeSet::new(); for p in &lc.inputs { rewrite::collect_binders_pat(p, &mut inputs); }
+        let param_names = |sig: &str| -> Vec<String> {
+            let sig = sig.trim(); let head = match sig.rsplit_once("->") { Some((a, _)) if a.trim_end().ends_with(')') => a.trim(), _ => sig };
+            let inner = head.trim_start_matches('(').trim_end_matches(')');
+            let mut names = vec![]; let mut depth = 0i32; let mut cur = String::new();
+            for ch in inner.chars() { match ch { '<' | '(' | '[' => { depth += 1; cur.push(ch); } '>' | ')' | ']' => { depth -= 1; cur.push(ch); } ',' if depth == 0 => { names.push(cur.clone()); cur.clear(); } _ => cur.push(ch) } }
+            if !cur.trim().is_empty() { names.push(cur); }
+            names.iter().map(|n| n.split(':').next().unwrap_or("").trim().trim_start_matches("mut ").to_string()).filter(|n| !n.is_empty()).collect()
+        };
+        let mut named: Vec<String> = vec![];
+        for k in specs.sections.keys() { if let Some(rest) = k.strip_prefix(&format!("captype {} ", ctor)) { named.push(rest.to_string()); } }
+        if let Some(sg) = specs.sections.get(&format!("sig {}", ctor)).cloned() { named.extend(param_names(&positional(sg, lc))); }
+        if let Some(sg) = specs.sections.get(&format!("sig {}", lc.name)).cloned() { named.extend(param_names(&positional(sg, lc)).into_iter().filter(|n| !inputs.contains(n) && !n.starts_with('_') && n != "ctx" && n != "actor")); }
+        let missing: BTreeSet<String> = named.into_iter().filter(|n| !capn.contains(n) && !inputs.contains(n)).collect();
+        if !missing.is_empty() {
+            cx.soft.push(format!("lost anchor: closure `{}` no longer captures {} which its contract names; its constructor is emitted from what it captures now and its own obligations are undecided", lc.name, missing.iter().map(|m| format!("`{}`", m)).collect::<Vec<_>>().join(", ")));
+            let keys: Vec<String> = specs.sections.keys().filter(|k| { let k = k.as_str(); k.ends_with(&format!(" {}", lc.name)) || k.contains(&format!(" {} ", ctor)) || k.ends_with(&format!(" {}", ctor)) || k.contains(&format!(" {} ", lc.name)) }).cloned().collect();
+            for k in keys { specs.used.insert(k); }
+            let typed_sig = specs.sections.contains_key(&format!("sig {}", ctor));
+            let mut own = String::from("own_none()"); let mut ps = vec![]; let mut tps = vec![]; let mut any_typed = false;
+            for (i, c) in lc.captures.iter().enumerate() {
+                let cn = if c == "self" { "this".to_string() } else { c.replace("self.", "self_") };
+                if typed_sig { ps.push(format!("{}: {}", cn, lc.cap_types.get(i).cloned().flatten().unwrap_or_else(|| "impl Sized".to_string()))); }
+                else { match specs.sections.get(&format!("captype {} {}", ctor, cn)) { Some(t) => { any_typed = true; ps.push(format!("{}: {}", cn, t.trim())); } None => { tps.push(format!("HxT{}", i)); ps.push(format!("{}: HxT{}", cn, i)); } } }
+                own = format!("own_join({}, own_of(&{}))", own, cn);
+            }
+            em.raw(&format!("pub open spec fn {}__code() -> int {{ {} }}", lc.name, fnv(&lc.name)));
+            let start = em.line();
+            em.raw("#[verifier::external_body] // @closure-constructor: a closure object owns exactly what its literal captures (Rust semantics)");
+            let ret_obj = specs.sections.get(&format!("ret {}", ctor)).map(|s| s.trim().to_string()).unwrap_or_else(|| "ClosureObj".to_string());
+            if typed_sig { em.raw(&format!("pub fn {}{}({}) -> (r: {}){}", ctor, gtxt_all, ps.join(", "), ret_obj, wtxt_all)); }
+            else if any_typed { let g = { let t = gtxt_all.trim(); if t.len() >= 2 { t[1..t.len() - 1].to_string() } else { String::new() } }; let mut all: Vec<String> = if g.is_empty() { vec![] } else { vec![g] }; all.extend(tps.clone()); em.raw(&format!("pub fn {}<{}>({}) -> (r: {}){}", ctor, all.join(", "), ps.join(", "), ret_obj, wtxt_all)); }
+            else { em.raw(&format!("pub fn {}{}({}) -> (r: {})", ctor, if tps.is_empty() { String::new() } else { format!("<{}>", tps.join(", ")) }, ps.join(", "), ret_obj)); }
+            em.raw(&format!("    ensures r.captured() == {}, r.code() == {},", own, fnv(&lc.name)));
+            if let Some(extra) = specs.sections.get(&format!("new {}", lc.name)).cloned() {
+                let extra = positional(extra, lc);
+                let word = |line: &str, w: &str| -> bool { let b = line.as_bytes(); let mut i = 0; while let Some(p) = line[i..].find(w) { let s0 = i + p; let e0 = s0 + w.len(); let lb = s0 == 0 || !(b[s0 - 1].is_ascii_alphanumeric() || b[s0 - 1] == b'_'); let rb = e0 >= b.len() || !(b[e0].is_ascii_alphanumeric() || b[e0] == b'_'); if lb && rb { return true; } i = e0; } false };
+                // a line may hold several comma-separated clauses: keep the clauses that do not mention a missing capture
+                for line in extra.lines() {
+                    let clauses: Vec<&str> = line.split("), ").collect();
+                    let kept: Vec<String> = line.trim().trim_end_matches(',').split(", r.").enumerate().map(|(i, c)| if i == 0 { c.to_string() } else { format!("r.{}", c) }).filter(|c| !missing.iter().any(|m| word(c, m)) && !c.contains('$')).collect();
+                    let _ = clauses;
+                    if !kept.is_empty() { em.raw(&format!("    {},", kept.join(", "))); }
+                }
+            }
+            em.raw("{ unimplemented!() }");
+            em.functions.push(emit::FnInfo { name: ctor.clone(), file: file.to_string(), src_line: lc.line, gen_start: start, gen_end: em.line(), kind: "closure-constructor".into(), path: lc.name.clone(), loops: 0, captured: lc.captures.clone() });
+            em.raw("");
+            cx.fire("L1r");
+            // the closures nested in the body are still lifted (other contracts refer to their code identities)
+            let mut block = lc.body.clone();
+            rewrite::inline_tail_async(&mut block, cx);
+            let mut binders = BTreeSet::new();
+            for p in &lc.inputs { rewrite::collect_binders_pat(p, &mut binders); }
+            for c in &lc.captures { binders.insert(c.clone()); }
+            rewrite::collect_binders_block(&block, &mut binders);
+            cx.cur_fn = lc.name.clone(); let fresh = cx.dropbody.insert(lc.name.clone());
+            let typed_ctors: BTreeSet<String> = specs.sections.keys().filter_map(|k| k.strip_prefix("sig ").map(|s| s.to_string())).collect();
+            let typed_caps: BTreeSet<String> = specs.sections.keys().filter_map(|k| k.strip_prefix("captype ").map(|s| s.to_string())).collect();
+            let gen_idents: Vec<String> = { let cl = closure_generics(gens, cx); gens.iter().flat_map(|g| g.params.iter().filter_map(|p| if let syn::GenericParam::Type(t) = p { Some(t.ident.to_string()) } else { None }).collect::<Vec<_>>()).filter(|n| !cl.contains_key(n)).collect() };
+            let mut rw = Rw::new(cx, false, binders, lc.name.clone());
+            rw.lift_prefix = lc.name.clone(); rw.typed_ctors = typed_ctors; rw.typed_caps = typed_caps; rw.gen_idents = gen_idents;
+            rw.visit_block_mut(&mut block);
+            let more = std::mem::take(&mut rw.lifted_closures);
+            drop(rw);
+            if fresh { cx.dropbody.remove(&lc.name); }
+            cx.cur_fn = String::new();
+            return more;
+        }
+    }
     let mut own = String::from("own_none()");
     let mut tps = vec![]; let mut ps = vec![]; let mut any_typed = false;
     for (i, c) in lc.captures.iter().enumerate() {
@@ -878,6 +953,8 @@ fn extract_struct(cx: &mut Ctx, specs: &mut Specs, em: &mut Emitter, ex: &Extrac
                 let (g, w) = generics_text(&[&st.generics], &[], cx);
                 em.comment(&format!("// @extracted struct `{}` from {}:{}", ex.path, ex.file, src_line));
                 if let Some(attrs) = specs.get(&format!("attrs {}", ex.path)) { em.raw_block(&attrs, ""); }
+                // `derives=Default`: a prelude models this struct's derived Default field by field; the derive must still be there
+                if let Some(want) = ex.opt("derives") { for w in want.split('+') { let has = st.attrs.iter().any(|a| a.path().is_ident("derive") && a.meta.to_token_stream().to_string().split(|c: char| !c.is_alphanumeric()).any(|t| t == w)); if !has { cx.err(format!("lost anchor: struct `{}` in {} no longer derives {} (its derived implementation is modelled in a prelude)", ex.path, ex.file, w)); } } }
                 let kept = kept_derives(&st.attrs); if !kept.is_empty() { em.raw(&format!("#[derive({})]", kept.join(", "))); }
                 let mut fl = vec![]; let mut own = String::from("own_none()");
                 let mut tuple = false;
